@@ -35,141 +35,7 @@ def S():
     return scores
 
 
-def mat(da):
-    """materialise as a fresh C-contiguous array (avoids the platform's bottleneck bug on strided views)"""
-    return xr.DataArray(np.array(da.values, order="C", copy=True), dims=da.dims, coords={k: v for k, v in da.coords.items()}, attrs=dict(da.attrs))
-
-
-# ------------------------------------------------------------------------------------------
-# recipes: name -> (inputs generator, call(inputs, **dims kw), options)
-# ------------------------------------------------------------------------------------------
-class Recipe:
-    def __init__(self, name, gen, call, fixed=(), lazy=True, dask=True, dataset=None, dims_kw=True, fn=None):
-        self.name, self.gen, self.call = name, gen, call
-        self.fixed = set(fixed)        # positional dims: never transposed away / label-shuffled
-        self.lazy = lazy               # result expected to stay lazy for dask inputs
-        self.dask = dask               # dask representation in scope
-        self.dataset = dataset         # public function object to inspect for XarrayLike annotations (None: not applicable)
-        self.dims_kw = dims_kw
-        self.fn = fn
-
-
-def g_point(rng, nan=0.15, lo=0, hi=4, extra=None):
-    sizes = {"a": rng.randint(1, 2), "b": rng.randint(2, 3), "c": rng.randint(1, 2)}
-    f = gens.rand_da(rng, sizes, nan_p=nan, lo=lo, hi=hi, den=2)
-    o = gens.rand_da(rng, sizes, dims=gens.sub_dims(rng, sizes, p_drop=0.2, keep_at_least=1), nan_p=nan, lo=lo, hi=hi, den=2)
-    return [f, o]
-
-
-def g_same(rng, **kw):
-    sizes = {"a": rng.randint(1, 2), "b": rng.randint(2, 3), "c": rng.randint(1, 2)}
-    return [gens.rand_da(rng, sizes, nan_p=0.1, lo=0, hi=4, den=2), gens.rand_da(rng, sizes, nan_p=0.1, lo=0, hi=4, den=2)]
-
-
-def g_binary(rng):
-    f, o = g_point(rng)
-    return [(f > 2).astype(float).where(f.notnull()), (o > 2).astype(float).where(o.notnull())]
-
-
-def g_prob(rng):
-    f, o = g_point(rng)
-    return [f / 4, (o > 2).astype(float).where(o.notnull())]
-
-
-def g_ens(rng):
-    sizes = {"a": rng.randint(1, 2), "b": rng.randint(2, 3), "m": rng.randint(1, 3)}
-    f = gens.rand_da(rng, sizes, nan_p=0.1, lo=0, hi=4, den=2)
-    o = gens.rand_da(rng, sizes, dims=["a", "b"] if rng.random() < 0.7 else ["b"], nan_p=0.1, lo=0, hi=4, den=2)
-    return [f, o]
-
-
-def g_cdf(rng, on_grid=False):
-    sizes = {"a": rng.randint(1, 2), "b": rng.randint(2, 3)}
-    n = rng.randint(3, 4)
-    thr = [0.0, 1.0, 2.0, 4.0][:n]
-    shape = [sizes["a"], sizes["b"], n]
-    vals = np.sort(np.array([[rng.randint(0, 8) / 8 for _ in range(n)] for _ in range(sizes["a"] * sizes["b"])]), axis=-1).reshape(shape)
-    lab = {d: rng.sample(range(sizes[d]), sizes[d]) for d in sizes}
-    f = xr.DataArray(vals, dims=["a", "b", "threshold"], coords={"a": lab["a"], "b": lab["b"], "threshold": thr})
-    pts = thr if on_grid else [0.0, 0.5, 1.0, 1.5, 3.0, 4.0]
-    o = xr.DataArray(np.array([[rng.choice(pts) for _ in range(sizes["b"])] for _ in range(sizes["a"])]), dims=["a", "b"],
-                     coords={"a": rng.sample(range(sizes["a"]), sizes["a"]), "b": rng.sample(range(sizes["b"]), sizes["b"])})
-    return [f, o]
-
-
-def g_fss(rng):
-    sizes = {"t": rng.randint(1, 2), "x": 3, "y": 4}
-    f = gens.rand_da(rng, sizes, dims=["t", "x", "y"], lo=0, hi=4, den=1, shuffle=False)
-    o = gens.rand_da(rng, sizes, dims=["t", "x", "y"], lo=0, hi=4, den=1, shuffle=False)
-    return [f, o]
-
-
-def g_risk(rng):
-    sizes = {"s": rng.randint(2, 3), "sev": 2}
-    f = gens.rand_da(rng, sizes, dims=["s", "sev"], lo=0, hi=1, den=4)
-    o = gens.rand_da(rng, sizes, dims=["s", "sev"], values=[0, 1])
-    return [f, o]
-
-
-def g_ff(rng, angular=False):
-    sizes = {"a": rng.randint(1, 2), "t": rng.randint(3, 5)}
-    f = gens.rand_da(rng, sizes, dims=["a", "t"], lo=0, hi=7, den=1, shuffle=False)
-    if angular:
-        f = f * 45.0
-    return [f, f]
-
-
-def recipes():
-    Sc = S()
-    C, P, K, PR = Sc.continuous, Sc.probability, Sc.categorical, Sc.processing
-    from scores.continuous.correlation import pearsonr
-    from scores.spatial import fss_2d
-    from scores.emerging import risk_matrix_score
-    from scores.processing.cdf import cdf_envelope
-    dw = xr.DataArray([[1.0, 2.0], [0.5, 1.0]], dims=["pt", "sev"], coords={"pt": [0.25, 0.75], "sev": [0, 1]})
-    R = [
-        Recipe("mse", g_point, lambda x, **k: C.mse(x[0], x[1], **k), dataset=C.mse),
-        Recipe("rmse", g_point, lambda x, **k: C.rmse(x[0], x[1], **k), dataset=C.rmse),
-        Recipe("mae", g_point, lambda x, **k: C.mae(x[0], x[1], **k), dataset=C.mae),
-        Recipe("mse_angular", g_point, lambda x, **k: C.mse(x[0] * 45, x[1] * 45, is_angular=True, **k)),
-        Recipe("additive_bias", g_point, lambda x, **k: C.additive_bias(x[0], x[1], **k), dataset=C.additive_bias),
-        Recipe("multiplicative_bias", g_point, lambda x, **k: C.multiplicative_bias(x[0], x[1], **k), dataset=C.multiplicative_bias),
-        Recipe("pbias", g_point, lambda x, **k: C.pbias(x[0], x[1], **k), dataset=C.pbias),
-        Recipe("kge", g_same, lambda x, **k: C.kge(x[0], x[1], include_components=True, **k)),
-        Recipe("pearsonr", g_same, lambda x, **k: pearsonr(x[0], x[1], **k)),
-        Recipe("quantile_score", g_point, lambda x, **k: C.quantile_score(x[0], x[1], 0.3, **k), dataset=C.quantile_score),
-        Recipe("quantile_interval_score", g_point, lambda x, **k: C.quantile_interval_score(x[0], x[0] + 1, x[1], 0.1, 0.8, **k)),
-        Recipe("interval_score", g_point, lambda x, **k: C.interval_score(x[0], x[0] + 1, x[1], 0.5, **k)),
-        Recipe("murphy_score", g_point, lambda x, **k: C.murphy_score(x[0], x[1], [1.0, 2.0], functional="huber", huber_a=1.0, alpha=0.3, decomposition=True, **k)),
-        Recipe("consistent_quantile_score", g_point, lambda x, **k: C.consistent_quantile_score(x[0], x[1], 0.3, lambda v: v, **k)),
-        Recipe("consistent_expectile_score", g_point, lambda x, **k: C.consistent_expectile_score(x[0], x[1], 0.3, lambda v: v ** 2, lambda v: 2 * v, **k)),
-        Recipe("tw_squared_error", g_point, lambda x, **k: C.tw_squared_error(x[0], x[1], (1, 3), **k)),
-        Recipe("tw_absolute_error", g_point, lambda x, **k: C.tw_absolute_error(x[0], x[1], (1, 3), **k)),
-        Recipe("tw_quantile_score", g_point, lambda x, **k: C.tw_quantile_score(x[0], x[1], 0.3, (1, 3), **k)),
-        Recipe("tw_huber_loss_trapezoid", g_point, lambda x, **k: C.tw_huber_loss(x[0], x[1], 1.5, (1, 2), interval_where_positive=(0, 3), **k)),
-        Recipe("firm", g_point, lambda x, **k: K.firm(x[0], x[1], 0.3, [1, 2], [1, 2], discount_distance=1.0, **k)),
-        Recipe("probability_of_detection", g_binary, lambda x, **k: K.probability_of_detection(x[0], x[1], **k), dataset=K.probability_of_detection),
-        Recipe("probability_of_false_detection", g_binary, lambda x, **k: K.probability_of_false_detection(x[0], x[1], **k)),
-        Recipe("brier_score", g_prob, lambda x, **k: P.brier_score(x[0], x[1], **k), dataset=P.brier_score),
-        Recipe("roc_curve_data", g_prob, lambda x, **k: P.roc_curve_data(x[0], x[1], [0, 0.25, 0.5, 0.75, 1], **k), lazy=False),
-        Recipe("binary_discretise_proportion", g_point, lambda x, **k: PR.binary_discretise_proportion(x[0], [1, 2], ">=", **k)),
-        Recipe("contingency_table", g_point, lambda x, **k: K.ThresholdEventOperator().make_contingency_manager(x[0], x[1], event_threshold=2).transform(**k).get_table(), lazy=False),
-        Recipe("crps_for_ensemble", g_ens, lambda x, **k: P.crps_for_ensemble(x[0], x[1], "m", include_components=True, **k), fixed=[]),
-        Recipe("crps_for_ensemble_fair", g_ens, lambda x, **k: P.crps_for_ensemble(x[0], x[1], "m", method="fair", **k)),
-        Recipe("tail_tw_crps_for_ensemble", g_ens, lambda x, **k: P.tail_tw_crps_for_ensemble(x[0], x[1], "m", 2.0, **k)),
-        Recipe("interval_tw_crps_for_ensemble", g_ens, lambda x, **k: P.interval_tw_crps_for_ensemble(x[0], x[1], "m", 1.0, 3.0, **k)),
-        Recipe("brier_score_for_ensemble", g_ens, lambda x, **k: P.brier_score_for_ensemble(x[0], x[1], "m", [1, 2], **k)),
-        Recipe("crps_cdf_exact", g_cdf, lambda x, **k: P.crps_cdf(x[0], x[1], include_components=True, **k), fixed=["threshold"]),
-        Recipe("crps_cdf_trapz", g_cdf, lambda x, **k: P.crps_cdf(x[0], x[1], integration_method="trapz", **k), fixed=["threshold"]),
-        Recipe("crps_cdf_brier_decomposition", g_cdf, lambda x, **k: P.crps_cdf_brier_decomposition(x[0], x[1], **k), fixed=["threshold"]),
-        Recipe("cdf_envelope", g_cdf, lambda x, **k: cdf_envelope(x[0], "threshold"), fixed=["threshold"], dims_kw=False, lazy=False),
-        Recipe("adjust_fcst_for_crps", g_cdf, lambda x, **k: P.adjust_fcst_for_crps(x[0], "threshold", x[1]), fixed=["threshold"], dims_kw=False, lazy=False),
-        Recipe("fss_2d", g_fss, lambda x, **k: fss_2d(x[0], x[1], event_threshold=2, window_size=(2, 2), spatial_dims=("x", "y"), **k), fixed=["x", "y"], dask=False, lazy=False),
-        Recipe("risk_matrix_score", g_risk, lambda x, **k: risk_matrix_score(x[0], x[1], dw, "sev", "pt", **k), lazy=False),
-        Recipe("flip_flop_index", g_ff, lambda x, **k: C.flip_flop_index(x[0], "t"), fixed=["t"], dims_kw=False),
-        Recipe("flip_flop_index_angular", lambda rng: g_ff(rng, True), lambda x, **k: C.flip_flop_index(x[0], "t", is_angular=True), fixed=["t"], dims_kw=False, lazy=False),
-    ]
-    return R
+from recipes import Recipe, mat, recipes  # noqa: E402,F401
 
 
 # ------------------------------------------------------------------------------------------
